@@ -111,6 +111,10 @@ class Aliases:
             if 1 <= local <= body.nargs:
                 if self._is_ptr_ty(local):
                     res = (local, (), bool(self._ty_mut(local)))
+                elif self._is_carrier_ty(local) and not self.body.locals[local].startswith('{closure'):
+                    # `Option<&mut T>` / `Iter<'_, T>` parameter: points into its own referent
+                    tm = self._ty_mut(local)
+                    res = (local, (), True if tm is None else bool(tm))
             elif self._is_carrier_ty(local):
                 d = body.single_def(local)
                 if d is not None:
